@@ -162,7 +162,7 @@ class SynthDef(metaclass=MetaSynthDef):
                 self._finish_build()
                 self._func = func
                 _libsc3.main._current_synthdef = None
-            except Exception:
+            except BaseException:  # KeyboardInterrupt within func too.
                 _libsc3.main._current_synthdef = None
                 raise
 
